@@ -187,6 +187,17 @@ def decision_table(I: Interp) -> List[Tuple[Dict[str, bool], str, List[str], Lis
     return out
 
 
+def decision_table_if_applicable(ctx, I: Interp) -> List[Tuple[Dict[str, bool], str, List[str], List[str]]]:
+    """the decision table, or nothing (with a note) when OperandsParser cannot be driven with a list of operand strings:
+    the operand forms are then judged on token templates through the line parser only, and the instance floors of the
+    table's rules keep the check from passing on that alone"""
+    try:
+        return decision_table(I)
+    except AnalysisError as exc:
+        ctx.notes.append(f"operand decision table not applicable: {exc}"[:300])
+        return []
+
+
 # ------------------------------------------------------------------ line regexes
 def folded_constant(I: Interp, module: str, name: str) -> str:
     from .absint import Frame
